@@ -1,6 +1,7 @@
 //! Deterministic simulation harness for feather-build-rs. One binary, fronted by /verif/check.
 
 mod bridge;
+mod c01;
 mod c03;
 mod c04;
 mod c05;
@@ -8,6 +9,7 @@ mod c12;
 mod c19;
 mod choice;
 mod engine;
+mod proj;
 mod refdiff;
 mod refmap;
 mod refmvn;
@@ -82,6 +84,7 @@ fn drive<E: Engine>(e: &E, a: &Args, digest_only: bool) -> i32 {
 
 fn dispatch(a: &Args, digest_only: bool) -> i32 {
     match a.id.as_str() {
+        "C01" => drive(&c01::C01, a, digest_only),
         "C03" => drive(&c03::C03, a, digest_only),
         "C04" => drive(&c04::C04, a, digest_only),
         "C05" => drive(&c05::C05, a, digest_only),
